@@ -183,6 +183,7 @@ def check(prop, tier):
 
     # 1. build + audits ------------------------------------------------------------------------
     ok_build, bt, blog = C.lake_build()
+    gen_info = None
     broken = []          # proof obligations / correspondence that no longer check
     obligations = discharged = 0
     details = []
@@ -195,7 +196,10 @@ def check(prop, tier):
         static_hits = C.static_audit()
         if static_hits:
             broken.append('forbidden tokens: ' + ', '.join(static_hits[:5]))
-        obligations, discharged, details, raw = C.axioms_audit(prop)
+        gen_ok, gen_info, gen_path = C.gen_audit(prop)
+        if not gen_ok:
+            broken.append('generated model: ' + '; '.join((gen_info or {}).get('recheck_log') or [str((gen_info or {}).get('error'))]))
+        obligations, discharged, details, raw = C.axioms_audit(prop, gen_path)
         for d in details:
             if not d['ok']:
                 broken.append('theorem %s: %s' % (d['name'], d.get('why')))
@@ -328,6 +332,7 @@ def check(prop, tier):
         'static_audit_hits': static_hits,
         'build_ok': ok_build, 'build_s': round(bt, 1),
         'leanchecker': leancheck,
+        'generated_model': gen_info,
         'source_sha': C.sha_files(mod.ANCHORS),
         'source_root': C.REPO,
         'known_findings_reported': sorted(x[1:] for x in reported if x.startswith('K')),
